@@ -41,6 +41,8 @@ CONFIGS = {
 def consts_of(name):
     c = configs.get(name, CONFIGS[name])
     c["EmitKeys"] = set(POST_KEYS)
+    if name == "TraceData":
+        c["ScalDom"] = dict(c["ScalDom"], version={"CUR", "NEXT"})
     return c
 
 
@@ -202,7 +204,9 @@ class Driver:
         if k == "scal":
             holders = sorted(c["Modules"] | c["Sections"] | c["Symbols"] | c["CodeBlocks"] | c["Exprs"])
             h = r.choice(holders)
-            if h in c["Modules"]:
+            if r.random() < 0.04 and len(c["ScalDom"].get("version", ())) > 1:
+                h, f = self.pick(c["IRs"]), "version"
+            elif h in c["Modules"]:
                 f = r.choice(["name", "binary_path", "isa", "file_format", "byte_order", "preferred_addr", "rebase_delta"])
             elif h in c["Sections"]:
                 f = "name"
@@ -316,27 +320,51 @@ def validate(ctx, name, consts, path, traces, chunks=8):
     mod, files, cfg = configs.render(name + "_trace", consts=consts, invariants=[], view=False, extends="GtirbTrace",
                                      spec="TSpec", postcondition="Done", gate="TraceGate")
 
-    def one(ixs):
+    def run_part(ixs):
         wd = workdir("gtirbverif-tracein-")
         p = os.path.join(wd, "part.ndjson")
         with open(p, "w") as fh:
             fh.write("\n".join(lines[i] for i in ixs) + "\n")
-        r = tlc.run(mod, cfg, extra_files=files, workers=2, env_extra={"TRACE_FILE": p}, timeout=3000, want_records=False)
-        if r.errors or r.violation:
-            raise MachineryFailure("GtirbTrace %s: %s" % (name, (r.errors or [r.violation])[0][:1500]))
+        r = tlc.run(mod, cfg, extra_files=files, workers=1, env_extra={"TRACE_FILE": p}, timeout=3000, want_records=False)
         marks = {}
         seen_done = False
+        last_args = None
         for line in open(r.stdout_path):
             m = _MARK.match(line)
             if m:
                 k, tid, l = m.group(1), ixs[int(m.group(2)) - 1], int(m.group(3))
                 marks.setdefault(tid, {"ARGS": 0, "RES": 0, "OK": 0})
                 marks[tid][k] = max(marks[tid][k], l)
+                if k == "ARGS":
+                    last_args = (tid, l)
             elif line.startswith('<<"TRACES"'):
                 seen_done = True
-        if not seen_done:
-            raise MachineryFailure("GtirbTrace %s: no completion marker" % name)
-        return marks, r.generated
+        return r, marks, seen_done, last_args
+
+    def one(ixs):
+        """validate one part; a logged result of another *type* than the one the specification prescribes
+        (None where an exception is required, ...) makes TLC stop with 'Attempted to check equality / compare':
+        that trace is rejected at that step (ARGS matched, RES did not) and the others are validated again"""
+        ixs = list(ixs)
+        out, gen = {}, 0
+        for _ in range(len(ixs) + 1):
+            if not ixs:
+                break
+            r, marks, seen_done, last_args = run_part(ixs)
+            gen += r.generated
+            err = (r.errors or [r.violation])[0] if (r.errors or r.violation) else None
+            if err is None:
+                if not seen_done:
+                    raise MachineryFailure("GtirbTrace %s: no completion marker" % name)
+                out.update(marks)
+                return out, gen
+            if last_args is not None and ("Attempted to" in err) and marks[last_args[0]]["RES"] < last_args[1]:
+                tid, l = last_args
+                out[tid] = {"ARGS": l, "RES": l - 1, "OK": l - 1, "type_mismatch": True}
+                ixs.remove(tid)
+                continue
+            raise MachineryFailure("GtirbTrace %s: %s" % (name, err[:1500]))
+        return out, gen
 
     marks, gen = {}, 0
     with cf.ThreadPoolExecutor(max_workers=chunks) as ex:
@@ -365,6 +393,8 @@ def stage_traces(ctx, name, *, n_traces, length, base=0):
             fh.write(json.dumps({"steps": bad}, separators=(",", ":")) + "\n")
         demo_at = len(traces)
     marks, gen = validate(ctx, name, consts, path, traces)
+    if demo_at is not None and marks.get(0, {"OK": 0})["OK"] < 5:
+        demo_at = None      # the uncorrupted original is itself rejected before that step (reported below): no demonstration
     if demo_at is not None:
         mk = marks.get(demo_at, {"OK": 0, "RES": 0})
         if mk["OK"] != 4 or mk["RES"] < 5:
